@@ -82,17 +82,23 @@ def run(ctx):
                 continue
             sites = []
             walk(c.T, c.v, root, (), sites)
+            # half of the cases: the laxer decoders see each rewritten encoding first (the tag sets of a
+            # case are its own, so this is the first time any decoder meets them)
+            warm_first = ctx.rng.random() < 0.5
             for path, kind in sites:
                 data, what = rewrite(e[1], path, kind, ctx.rng)
                 decs = ['DER'] + (['CER'] if kind == 'bool' else [])
                 for dc in decs:
                     for with_spec in ([True] if implicit_ok else [True, False]):
+                        if warm_first:
+                            I.warm(dc, data, **({'asn1Spec': c.spec} if with_spec else {}))
+                            ctx.stats['history:laxer decoders first'] += 1
                         d = I.run_decode(dc, data, **({'asn1Spec': c.spec} if with_spec else {}))
                         ctx.case((dc, data, with_spec), len(path) > 0)
                         ctx.stats['rewrite:%s' % kind] += 1
                         ctx.stats['depth:%d' % len(path)] += 1
                         m = {'decoder': dc, 'T': c.T, 'v': c.v, 'der': e[1].hex(), 'rewritten': data.hex(), 'rewrite': what,
-                             'path': list(path), 'with_spec': with_spec}
+                             'path': list(path), 'with_spec': with_spec, 'warm_first': warm_first}
                         if d[0] == 'ok':
                             ctx.prop_fail('%s decoder accepts a non-canonical encoding (%s at depth %d, %s guiding type)' % (
                                 dc, what, len(path), 'with' if with_spec else 'without'), m)
@@ -116,6 +122,8 @@ def replay(data):
     c = codec.Case(m['T'], m['v'])
     for dc in ('DER', 'CER', 'BER'):
         for sp in (True, False):
+            if m.get('warm_first') and dc != 'BER':
+                I.warm(dc, bytes.fromhex(m['rewritten']), **({'asn1Spec': c.spec} if sp else {}))
             d = I.run_decode(dc, bytes.fromhex(m['rewritten']), **({'asn1Spec': c.spec} if sp else {}))
             print(dc, 'spec' if sp else 'nospec', 'ACCEPTED' if d[0] == 'ok' else d[1])
     return 0
